@@ -182,6 +182,22 @@ def search(ctx):
             if pairs != want: fails.append({'class': 'C19-sweep', 'what': f'shapes: {pairs} vs {want}', 'input': None, 'observed': pairs, 'expected': want})
         except Exception as e:
             fails.append({'class': 'C19-sweep', 'what': f'bbox_intersections raised {type(e).__name__}: {e}', 'input': None, 'observed': str(e), 'expected': 'no exception'})
+    # stale state: sweep, move a path of one collection in place, sweep again (cached boxes must not survive the move)
+    for _ in range(ctx.n(25, 400)):
+        A = [Rectangle(rng.uniform(5, 80), rng.uniform(5, 80), origin=P(rng.uniform(-200, 200), rng.uniform(-200, 200))) for _ in range(rng.randint(1, 6))]
+        B = [Rectangle(rng.uniform(5, 80), rng.uniform(5, 80), origin=P(rng.uniform(-200, 200), rng.uniform(-200, 200))) for _ in range(rng.randint(1, 6))]
+        try:
+            bbox_intersections(A, B)
+            mv = rng.choice(A + B); mv.translate(P(rng.uniform(-150, 150), rng.uniform(-150, 150)))
+            if not tie_free([a.bounds() for a in A], [b.bounds() for b in B]): continue
+            got = bbox_intersections(A, B)
+            ia = {id(s): i for i, s in enumerate(A)}; ib = {id(s): i for i, s in enumerate(B)}
+            pairs = sorted((ia[id(o)], ib[id(o2)]) if id(o) in ia else (ia[id(o2)], ib[id(o)]) for o, o2 in got)
+            want = brute([a.bounds() for a in A], [b.bounds() for b in B])
+        except Exception as e:
+            pairs, want = ('raised', type(e).__name__), None
+        ev += 1; dist['sweep/stale-state'] = dist.get('sweep/stale-state', 0) + 1
+        if pairs != want: fails.append({'class': 'C19-sweep', 'what': f'after moving one path in place and sweeping again: {pairs} vs {want}', 'input': None, 'observed': pairs, 'expected': want})
     return {'evaluations': ev, 'distinct_nontrivial': len(seen), 'failures': fails, 'distribution': dist, 'samples': samples}
 
 
